@@ -54,6 +54,7 @@ def run_shard_inprocess(pid: str, spec: dict) -> Acc:
     hub.reset(acc)
     mod = prop_module(pid)
     mod.run_shard(spec, acc)
+    acc.flags["contracts_backend"] = getattr(hub, "contracts_backend", "n/a")
     return acc
 
 
